@@ -29,7 +29,7 @@ structure Probe where
   position : Nat
   arg : Int := -1
 
-def probeW : Wrapped Probe where
+@[reducible] def probeW : Wrapped Probe where
   length p := p.length
   position p := p.position
   read p k := .ok ([], { p with arg := k })
@@ -37,6 +37,13 @@ def probeW : Wrapped Probe where
   seek p k := .ok { p with arg := k }
   fwd p k := .ok { p with arg := k }
   back p k := .ok { p with arg := k }
+
+/-- composed calls: push `bind` through the callee's `if`s so that only `if`s over arithmetic remain -/
+theorem bind_ite {α β : Type} (c : Prop) [Decidable c] (a b : Option α) (f : α → Option β) :
+    (if c then a else b).bind f = if c then a.bind f else b.bind f := by
+  split <;> rfl
+theorem bind_none' {α β : Type} (f : α → Option β) : (none : Option α).bind f = none := rfl
+theorem bind_some' {α β : Type} (a : α) (f : α → Option β) : (some a).bind f = f a := rfl
 
 /-- closes `flag = true → …` when the function fell back (flag is `false`) -/
 macro "gen_fallback" : tactic => `(tactic| (intro h; exact absurd h (by decide)))
